@@ -245,6 +245,9 @@ def run(ctx):  # noqa: C901, PLR0912, PLR0915
            'match_scope: the segments of the first (requested) operand must be a prefix of the segments of the second '
            '(offered) operand' if ok5 else why5, fi=ms, witness=wit)
 
+    from . import common
+    # the type and scope lists that the filter compares are the items the peer sent (element content: any white space separates)
+    common.element_text_lists_split_on_whitespace(ctx, 'C14.R6')
     # ------------------------------------------------------------------ R6
     ctx.ob('C14.R6', 'symmetric normalisation', ok6, why6, fi=ms, witness=wit)
 
